@@ -233,3 +233,70 @@ def full_prices(P, R, n):
   else:
     out[:, :] = P
   return out
+
+
+# ---------------------------------------------------------------- input forms (same logical input, another form)
+FLOW_FORMS = ['C', 'F', 'T', 'strided', 'flat', 'flat-strided']
+MAT_FORMS = ['C', 'F', 'T', 'strided']
+
+
+def relayout(a, form):
+  """the same logical array in another memory layout / shape convention:
+  C / F(ortran) order, T = transpose view of a (n, R) table, strided = view into a larger array,
+  flat / flat-strided = row-major vector (contiguous / every second element of a longer buffer),
+  row = a per-slot vector as a (1, n) array."""
+  n_ = np()
+  a = n_.asarray(a)
+  if form == 'C':
+    return n_.ascontiguousarray(a)
+  if form == 'F':
+    return n_.asfortranarray(a)
+  if form == 'T':
+    return n_.ascontiguousarray(a.T).T
+  if form == 'strided':
+    if a.ndim == 1:
+      big = n_.full(2*a.size + 1, -7, dtype=a.dtype); big[1::2] = a
+      return big[1::2]
+    big = n_.full((2*a.shape[0] + 1, 2*a.shape[1] + 1), -7, dtype=a.dtype); big[1::2, 1::2] = a
+    return big[1::2, 1::2]
+  if form == 'flat':
+    return a.reshape(-1).copy()
+  if form == 'flat-strided':
+    big = n_.full(2*a.size, -7, dtype=a.dtype); big[::2] = a.reshape(-1)
+    return big[::2]
+  if form == 'row':
+    return a.reshape(1, -1).copy()
+  raise ValueError(form)
+
+
+def price_variants(P, R, n):
+  """[(name, value)] of the same price in other forms: scalar as python / numpy scalar / 0-d array; per-slot vector
+  as (n,), (1, n), strided; matrix in C / F / transpose-view / strided layout; integer-typed when integer-valued."""
+  n_ = np()
+  a = n_.asarray(P)
+  out = []
+  if a.ndim == 0:
+    out = [('python float', float(a)), ('numpy 0-d array', n_.array(float(a))), ('numpy scalar', n_.float64(a))]
+    if float(a).is_integer():
+      out.append(('python int', int(a)))
+  elif a.ndim == 1:
+    af = a.astype(float)
+    out = [('(n,) vector', af.copy()), ('(1, n) row', af.reshape(1, -1).copy()), ('strided (n,) vector', relayout(af, 'strided'))]
+    if (af == n_.round(af)).all():
+      out += [('integer-typed (n,) vector', af.astype(int)), ('integer-typed (1, n) row', af.astype(int).reshape(1, -1))]
+  else:
+    af = a.astype(float)
+    out = [('(R, n) matrix, %s layout' % f, relayout(af, f)) for f in MAT_FORMS]
+    if (af == n_.round(af)).all():
+      out.append(('integer-typed (R, n) matrix', af.astype(int)))
+  return out
+
+
+def flow_variants(S):
+  """[(name, array)] of the same logical (R, n) flow matrix in every form of FLOW_FORMS (+ integer-typed if integer-valued)."""
+  n_ = np()
+  Sf = n_.asarray(S).astype(float)
+  out = [('%s layout' % f, relayout(Sf, f)) for f in FLOW_FORMS]
+  if (Sf == n_.round(Sf)).all():
+    out += [('integer-typed C layout', Sf.astype(int)), ('integer-typed F layout', n_.asfortranarray(Sf.astype(int)))]
+  return out
